@@ -180,6 +180,9 @@ def run(ctx):
         if ctx.n_new() == 0:
             run_demo(ctx, 'demo_tr3.py', [1 + ctx.seed], 'c05-code-vs-generated-vs-model',
                      'split_rows_clusters / learn_spn task records vs generated definitions vs the queue machine', env_extra=dict(DEMO_SECTIONS='b'))
+        if ctx.n_new() == 0:
+            run_demo(ctx, 'demo_tr4.py', [1 + ctx.seed], 'c05-code-vs-generated-vs-model-4',
+                     'operation-selection cascade of learn_spn vs generated definition vs selectOp', env_extra=dict(DEMO_SECTIONS='a'))
 
 
 def replay(rep):
